@@ -49,6 +49,9 @@ type Scenario struct {
 	Twins      bool       `json:"twins,omitempty"`       // parallel: pairs 0 and 1 sign the very same message at the same instant under the same signer name and key tag - with different keys (a rollover); each key's device takes a scheduling point inside its Sign
 	Flaky      int        `json:"flaky,omitempty"`       // the key is a device that fails its first n requests (a token that lost its session, a throttled KMS) and works from then on
 	ThirdParty int        `json:"third_party,omitempty"` // the message that travels is signed by an independent implementation (own digest construction, standard library crypto): 1 ECDSA with the smaller s, 2 with the larger s, 3 as it comes
+	OwnSIG     bool       `json:"own_sig,omitempty"`     // the verifier checks the delivered octets with the SIG object that signed (the way the library's own test does): that object holds the genuine signature, whatever the octets say
+	Spare      bool       `json:"spare,omitempty"`       // the message's sections are slices with room to spare, and what lies in that room belongs to someone else (another message built on the same array)
+	SharedMsg  bool       `json:"shared_msg,omitempty"`  // parallel: all pairs also sign one and the same message object (no EDNS: packing it writes nothing), each with its own key; a private record in its answer section takes a scheduling point while it is packed
 	Msg        gen.Recipe `json:"msg"`
 	Key        int        `json:"key"`
 	EpochS     int        `json:"epoch_s"`    // bubble is slept forward by this much first
@@ -113,6 +116,9 @@ func Gen(seed uint64, tier string) any {
 	}
 	sc.Poison = core.Chance(r, 20)
 	sc.Resign = core.Chance(r, 25)
+	sc.OwnSIG = core.Chance(r, 20)
+	sc.Spare = core.Chance(r, 25)
+	sc.SharedMsg = sc.Parallel > 0 && core.Chance(r, 50)
 	if core.Chance(r, 30) {
 		sc.ThirdParty = 1 + r.IntN(3)
 	}
@@ -386,6 +392,20 @@ func runIn(sc *Scenario, res *core.Result, verbose bool) {
 		res.Bump("fault.sig_record_with_leftovers")
 	}
 	arBefore := int(binary.BigEndian.Uint16(packed[10:]))
+	var spare [][]dns.RR
+	sentinel := &dns.TXT{Hdr: dns.RR_Header{Name: "not.yours.example.", Rrtype: dns.TypeTXT, Class: dns.ClassINET, Ttl: 1}, Txt: []string{"belongs to another message"}}
+	if sc.Spare {
+		// every section gets room for two more records, and that room is in use - by a sibling slice of the
+		// application's: Sign may read the message, the array behind its slices is not Sign's to write to
+		for _, sec := range []*[]dns.RR{&m.Answer, &m.Ns, &m.Extra} {
+			full := make([]dns.RR, len(*sec)+2)
+			copy(full, *sec)
+			full[len(*sec)], full[len(*sec)+1] = sentinel, sentinel
+			*sec = full[:len(*sec)]
+			spare = append(spare, full)
+		}
+		res.Bump("fault.sections_with_occupied_spare_room")
+	}
 	if sc.Poison {
 		// an unrelated message that shares names with this one and cannot be packed: whatever packing
 		// state it leaves behind must not reach the message that is signed next
@@ -429,6 +449,13 @@ func runIn(sc *Scenario, res *core.Result, verbose bool) {
 	if after, aerr := m.Pack(); aerr != nil || string(after) != string(packed) {
 		res.Fail("Q1", "sign-changed-message", "after SIG.Sign (err=%v) the caller's message packs to %d octets, before it was %d: Sign altered the message it was given", err, len(after), len(packed))
 		return
+	}
+	for i, full := range spare {
+		res.Bump("oracle.Q1_sign_keeps_to_the_message")
+		if full[len(full)-2] != dns.RR(sentinel) || full[len(full)-1] != dns.RR(sentinel) {
+			res.Fail("Q1", "sign-wrote-behind-the-message", "after SIG.Sign the array behind section %d of the caller's message holds %v in the slot behind the section's last record, where a record of another message was: Sign wrote to memory that is not part of the message it was given", i+1, full[len(full)-2])
+			return
+		}
 	}
 	sigRRLen := 1 + 10 + 18 + len(kp.key.Hdr.Name) + 1 + sigLen(kp.priv) // owner, fixed part, SIG RDATA up to the signer name, the signature of this very key
 	if err != nil {
@@ -583,6 +610,9 @@ func runIn(sc *Scenario, res *core.Result, verbose bool) {
 							vrr = s
 						}
 					}
+					if sc.OwnSIG {
+						vrr = sig
+					}
 					verr, pan := verify(vrr, kp.key, c)
 					if pan != "" {
 						res.Fail("Q4", "verify-panic:"+firstLine(pan), "SIG.Verify panicked with bit %d of octet %d flipped: %s", p%8, p/8, pan)
@@ -600,6 +630,9 @@ func runIn(sc *Scenario, res *core.Result, verbose bool) {
 					vrr.Hdr = dns.RR_Header{Name: ".", Rrtype: dns.TypeSIG, Class: dns.ClassANY}
 					vrr.Algorithm, vrr.KeyTag, vrr.SignerName = sig.Algorithm, sig.KeyTag, sig.SignerName
 					vrr.Inception, vrr.Expiration = sig.Inception, sig.Expiration
+					if sc.OwnSIG {
+						vrr = sig
+					}
 					verr, pan := verify(vrr, kp.key, append([]byte(nil), signed[:k]...))
 					if pan != "" {
 						res.Fail("Q4", "verify-panic:"+firstLine(pan), "SIG.Verify panicked on the first %d of %d signed octets: %s", k, len(signed), pan)
@@ -731,6 +764,10 @@ func runIn(sc *Scenario, res *core.Result, verbose bool) {
 				vrr = s
 			}
 		}
+		if sc.OwnSIG {
+			vrr = sig
+			res.Bump("cover.verified_with_the_sig_object_that_signed")
+		}
 		if sc.Siege > 0 && !tampered && inWindow {
 			// someone else has been sending forgeries in this signer's name: each is refused, and none of that
 			// may cost the genuine message its verification
@@ -818,12 +855,13 @@ type sharedSigned struct {
 }
 
 type pairTask struct {
-	shared *sharedSigned
-	k      *kernel.K
-	res    *core.Result
-	sc     *Scenario
-	idx    int
-	fin    *int
+	sharedMsg *dns.Msg
+	shared    *sharedSigned
+	k         *kernel.K
+	res       *core.Result
+	sc        *Scenario
+	idx       int
+	fin       *int
 }
 
 //go:norace
@@ -887,6 +925,29 @@ func (p *pairTask) RunEvent(time.Time) {
 		}
 		k.Unlock()
 	}
+	if p.sharedMsg != nil {
+		// all pairs sign the very same message object, each with its own key and SIG record: Sign reads the
+		// message, and a message without EDNS is packed without a write to it
+		now := uint32(time.Now().Unix())
+		sig := &dns.SIG{}
+		sig.Algorithm, sig.KeyTag, sig.SignerName = kp.key.Algorithm, kp.key.KeyTag(), kp.key.Hdr.Name
+		sig.Inception, sig.Expiration = now-300, now+300
+		k.Yield("pair.sign.shared", p.idx)
+		signed, err := sig.Sign(kp.priv, p.sharedMsg)
+		k.Yield("pair.verify.own", p.idx)
+		valid, judgable := false, false
+		if err == nil {
+			valid, judgable = oracle.VerifySIG0(signed, kp.priv.Public())
+		}
+		k.Lock()
+		p.res.Stats["oracle.Q1_shared_message_signed_concurrently"]++
+		if err != nil {
+			p.res.Fail("Q1", "sign-failed-concurrent:"+err.Error(), "SIG.Sign of a message that other signers were signing too failed: %v", err)
+		} else if judgable && !valid {
+			p.res.Fail("Q1", "signature-invalid-for-others-concurrent", "what pair %d got from SIG.Sign for a message that %d other signers were signing at the same time is not that message followed by a valid RFC 2931 signature under pair %d's key", p.idx, p.sc.Parallel-1, p.idx)
+		}
+		k.Unlock()
+	}
 	if p.shared != nil {
 		// all pairs verify the very same octets: a verifier must treat them as read-only
 		k.Yield("pair.verify.shared", p.idx)
@@ -936,8 +997,23 @@ func runParallel(sc *Scenario, res *core.Result, verbose bool) {
 			shared = &sharedSigned{buf: b, sig: sg, key: kp.key}
 		}
 	}
+	var sharedMsg *dns.Msg
+	if sc.SharedMsg {
+		sharedMsg = new(dns.Msg)
+		sharedMsg.SetQuestion("shared.example.", dns.TypeANY)
+		sharedMsg.Id = 0x5151
+		sharedMsg.Compress = sc.Msg.Compress
+		sharedMsg.Answer = append(sharedMsg.Answer,
+			&dns.A{Hdr: dns.RR_Header{Name: "shared.example.", Rrtype: dns.TypeA, Class: dns.ClassINET, Ttl: 60}, A: []byte{192, 0, 2, 1}},
+			&dns.PrivateRR{Hdr: dns.RR_Header{Name: "shared.example.", Rrtype: privType, Class: dns.ClassINET, Ttl: 60}, Data: &yieldRdata{v: "packed at leisure"}},
+			&dns.MX{Hdr: dns.RR_Header{Name: "shared.example.", Rrtype: dns.TypeMX, Class: dns.ClassINET, Ttl: 60}, Preference: 10, Mx: "mail.shared.example."})
+		extra := make([]dns.RR, 1, 4) // room to spare behind the last record, as append leaves it
+		extra[0] = &dns.AAAA{Hdr: dns.RR_Header{Name: "mail.shared.example.", Rrtype: dns.TypeAAAA, Class: dns.ClassINET, Ttl: 60}, AAAA: []byte{0x20, 1, 0xd, 0xb8, 0, 0, 0, 0, 0, 0, 0, 0, 0, 0, 0, 1}}
+		sharedMsg.Extra = extra
+		res.Bump("cover.one_message_object_signed_by_all_pairs")
+	}
 	for i := 0; i < sc.Parallel; i++ {
-		k.Go("pair"+strconv.Itoa(i), &pairTask{k: k, res: res, sc: sc, idx: i, fin: &fin, shared: shared})
+		k.Go("pair"+strconv.Itoa(i), &pairTask{k: k, res: res, sc: sc, idx: i, fin: &fin, shared: shared, sharedMsg: sharedMsg})
 	}
 	out := k.Run(pairsDone{&fin, sc.Parallel})
 	res.Steps, res.Digest = k.Steps, k.Digest()
@@ -951,6 +1027,32 @@ func runParallel(sc *Scenario, res *core.Result, verbose bool) {
 	res.Nontrivial = true
 	res.Class = "parallel/n=" + strconv.Itoa(sc.Parallel) + "/" + dns.AlgorithmToString[keys[sc.Key%len(keys)].key.Algorithm]
 }
+
+// yieldRdata is the RDATA of a private record type whose packing takes a scheduling point: an application's
+// own code in the middle of Msg.Pack, and with it of SIG.Sign.
+type yieldRdata struct{ v string }
+
+const privType = 65292
+
+func (y *yieldRdata) String() string         { return y.v }
+func (y *yieldRdata) Parse(t []string) error { y.v = strings.Join(t, " "); return nil }
+
+//go:norace
+func (y *yieldRdata) Pack(b []byte) (int, error) {
+	if k := kernel.Current(); k != nil {
+		k.Yield("pack.private", 0)
+	}
+	if len(b) < len(y.v) {
+		return 0, errors.New("yieldRdata: buffer too small")
+	}
+	return copy(b, y.v), nil
+}
+func (y *yieldRdata) Unpack(b []byte) (int, error) { y.v = string(b); return len(b), nil }
+func (y *yieldRdata) Copy(d dns.PrivateRdata) error {
+	d.(*yieldRdata).v = y.v
+	return nil
+}
+func (y *yieldRdata) Len() int { return len(y.v) }
 
 // yieldSigner is a key behind a device that takes a while: a scheduling point inside Sign.
 type yieldSigner struct {
@@ -1009,5 +1111,6 @@ func trimStack(s string) string {
 }
 
 func init() {
+	dns.PrivateHandle("XPRIV18", privType, func() dns.PrivateRdata { return &yieldRdata{} })
 	core.Register(&core.Prop{ID: "C18", Gen: Gen, Decode: Decode, Run: Run, Shrink: Shrink, Modes: []string{"pristine"}, Race: true})
 }
